@@ -11,8 +11,8 @@ import z3
 from ..hdl.harness import Refused
 
 ALLF = ["err", "rty", "stall", "lock", "cti", "bte"]
-C08_CLAUSES = ["inv_init", "inv_step", "owner_request_fanout", "owner_response", "nonowner_isolated", "busy_keeps_owner"]
-C09_CLAUSES = ["next_owner_closest", "stays_when_alone", "held_keeps_owner", "rank_decreases", "inv_init", "inv_step"]
+C08_CLAUSES = ["inv_init", "inv_step", "owner_request_fanout", "owner_response", "nonowner_isolated", "busy_keeps_owner", "bus_as_configured"]
+C09_CLAUSES = ["next_owner_closest", "stays_when_alone", "held_keeps_owner", "rank_decreases", "inv_init", "inv_step", "bus_as_configured"]
 
 
 def configs(tier, seed, salt=0):
@@ -58,6 +58,8 @@ def configs(tier, seed, salt=0):
     for k, c in enumerate(cfgs):
         if k % 3 == 1:
             c["enum_features"] = True
+        if k % 4 == 3 and c["afeat"]:
+            c["iter_features"] = True
         if k % 4 == 2:
             c["refused_before"] = sorted({0, c["n"]} if k % 8 == 2 else {c["n"] // 2})
         if k % 5 == 3 and c["n"] >= 2:
@@ -96,6 +98,9 @@ def build(cfg, upto=None):
         if cfg.get("enum_features"):
             # the documented spelling with Feature members instead of strings: the same component must result
             afeat = {wishbone.Feature(f) for f in afeat}
+        if cfg.get("iter_features"):
+            # ... or any other iterable, including a one-shot iterator
+            afeat = iter(sorted(afeat, key=str))
         arb = wishbone.Arbiter(addr_width=cfg["aw"], data_width=cfg["dw"], granularity=cfg["agran"], features=afeat)
         for i in range(cfg["n"] if upto is None else upto):
             if i in cfg.get("refused_before", ()):
@@ -129,6 +134,11 @@ def check_config(ctx, cfg, which):
     nl = ctx.netlist(arb, probes=probes)
     ctx.nontrivial = n >= 2
     bus = arb.bus
+    # the shared bus is the one that was CONFIGURED (however the feature set was spelled): the clauses below look at the signals the
+    # bus has, so a bus that silently lost its optional signals would satisfy them vacuously
+    from amaranth_soc import wishbone as _wb
+    want_sig = _wb.Signature(addr_width=cfg["aw"], data_width=cfg["dw"], granularity=cfg["agran"], features=set(cfg["afeat"]))
+    ctx.prove("bus_as_configured", z3.BoolVal(bus.signature == want_sig and all(hasattr(bus, f) for f in cfg["afeat"])))
     S = lambda x: x.as_value() if hasattr(x, "as_value") else x
     one, zero = z3.BitVecVal(1, 1), z3.BitVecVal(0, 1)
     f0 = nl.frame("0"); f1 = nl.frame("1", prev=f0); fr = nl.frame("r", state=nl.reset_state())
